@@ -138,11 +138,23 @@ def shape_d7(unit: Unit) -> bool:
 
 
 def shape_n3(unit: Unit) -> bool:
-    """A type reached through two import hops (a.b.X)."""
+    """A type written through two import hops (`a.b.X`): the output qualifies it by the INNER
+    import name `b`, which resolves in the using file only if that file itself imports X's
+    file under the very same name."""
     for o, t in _trefs(unit):
-        tf, of = file_of(t.target), file_of(o)
-        if tf is not of and not any(imp.file is tf for imp in of.imports()):
-            return True
+        of = file_of(o)
+        tf = file_of(t.target)
+        if tf is of:
+            continue
+        parts = t.text_.split(".")
+        imps = {imp.name: imp.file for imp in of.imports()}
+        first = imps.get(parts[0])
+        if first is None:
+            continue
+        inner = {imp.name: imp.file for imp in first.imports()}
+        if len(parts) >= 3 and parts[1] in inner and inner[parts[1]] is tf:
+            if imps.get(parts[1]) is not tf:
+                return True
     return False
 
 
@@ -249,34 +261,49 @@ def shape_d9(unit: Unit) -> bool:
 
 def shape_n8(f: File) -> bool:
     """go -O inlines the leaves of every message reachable by value and casts each leaf to
-    its declared enum/alias type.  Shape: some leaf reachable from a message of f has a
-    declared enum/alias type that is not defined in f and is either nested in a message or
-    lives in a file f does not import directly."""
-    direct = {id(imp.file) for imp in f.imports()}
-    seen: Set[int] = set()
+    its declared enum/alias type, qualified the way the file that DECLARES the field would
+    qualify it.  Shape: some leaf reachable from a message of f, declared in another file g,
+    has an enum/alias type D whose emitted name does not resolve in f: D is nested in a
+    message, or the qualifier (the import name under which D's file is known on the path
+    from f to g) is not an import name of f for that same file."""
+    f_imports = {imp.name: imp.file for imp in f.imports()}
 
-    def bad_named(d: Any) -> bool:
-        if file_of(d) is f:
-            return False
-        return bool(enclosing_messages(d)) or id(file_of(d)) not in direct
+    def import_name(g: File, target: File) -> Optional[str]:
+        for imp in g.imports():
+            if imp.file is target:
+                return imp.name
+        return None
 
-    def walk(t: Any) -> bool:
+    seen: Set[Tuple[int, Optional[str]]] = set()
+
+    def named_bad(d: Any, g: File, gname: Optional[str]) -> bool:
+        if g is f:
+            return False  # written in f itself: standard-mode rules (D7/N3 shapes are separate findings)
+        q = gname if file_of(d) is g else import_name(g, file_of(d))
+        if enclosing_messages(d):
+            return True
+        return q is None or f_imports.get(q) is not file_of(d)
+
+    def walk(t: Any, g: File, gname: Optional[str]) -> bool:
         if isinstance(t, TArray):
-            return walk(t.elem)
+            return walk(t.elem, g, gname)
         if isinstance(t, TRef):
             d = t.target
-            if isinstance(d, (Enum, Alias)) and bad_named(d):
+            if isinstance(d, (Enum, Alias)) and named_bad(d, g, gname):
                 return True
+            m = file_of(d)
+            sub = gname if m is g else import_name(g, m)
             if isinstance(d, Alias):
-                return walk(d.type)
+                return walk(d.type, m, sub)
             if isinstance(d, Message):
-                if id(d) in seen:
+                key = (id(d), sub)
+                if key in seen:
                     return False
-                seen.add(id(d))
-                return any(walk(fl.type) for fl in d.fields())
+                seen.add(key)
+                return any(walk(fl.type, m, sub) for fl in d.fields())
         return False
 
-    return any(walk(fl.type) for m in iter_messages(f) for fl in m.fields())
+    return any(walk(fl.type, f, None) for m in iter_messages(f) for fl in m.fields())
 
 
 def shape_n7(f: File) -> bool:
